@@ -20,6 +20,16 @@ pub fn scenario(tier: &str) -> IncScn {
     IncScn { property: "C12".into(), roots, users: default_users(), reduced: tier == "quick" }
 }
 
+/// long-history mode: two stakers with different claim histories, composite epoch rounds, flows that may
+/// start in the past; depth 6/7 spans whole flow lifetimes
+pub fn long_scenario(tier: &str) -> IncScn {
+    let mut roots = vec![IncRoot { label: "NativeDiff/two-stakers-epoch6".into(), lp_native: true, fee_kind: FeeKind::NativeDiff, prefix: 5, standing_allowance: false }];
+    if tier != "quick" {
+        roots.push(IncRoot { label: "Cw20Same/two-stakers-epoch6".into(), lp_native: true, fee_kind: FeeKind::Cw20Same, prefix: 5, standing_allowance: false });
+    }
+    IncScn { property: "C12".into(), roots, users: default_users(), reduced: true }
+}
+
 pub fn run(tier: &str, seed: u64) -> i32 {
     let mut ev = Evidence::new("C12", tier, seed);
     ev.assumptions = vec![
@@ -30,7 +40,11 @@ pub fn run(tier: &str, seed: u64) -> i32 {
     let cfg = default_cfg("C12", tier, seed, depth);
     ev.add_report(explore(&scenario(tier), &cfg));
     if ev.violations.is_empty() {
-        for c in ["openflow:ok", "openflow:rejected", "expandflow:ok", "closeflow:ok", "closeflow:stranger_rejected", "claim:paid>0"] {
+        let cfg = default_cfg("C12", tier, seed, if tier == "quick" { 6 } else { 7 });
+        ev.add_report(explore(&long_scenario(tier), &cfg));
+    }
+    if ev.violations.is_empty() {
+        for c in ["openflow:start_in_the_past", "openflow:ok", "openflow:rejected", "expandflow:ok", "closeflow:ok", "closeflow:stranger_rejected", "claim:paid>0"] {
             ev.require_counter(c, 1);
         }
     }
@@ -39,5 +53,8 @@ pub fn run(tier: &str, seed: u64) -> i32 {
 
 pub fn replay(doc: &Value) -> bool {
     let tier = doc["tier"].as_str().unwrap_or("quick");
+    if doc["root_label"].as_str().unwrap_or("").contains("two-stakers") {
+        return replay_trace(&long_scenario(tier), doc);
+    }
     replay_trace(&scenario(tier), doc)
 }
